@@ -101,6 +101,7 @@ class World:
         self.p_null_nonnull = 0.0      # probability of null data at a non-null position (C01: "any resolver data")
         self.mutate_args = False       # resolvers scribble over the argument containers they were given (C15)
         self.arg_fault_kind = "raise"  # or "raise_tf": the failing argument hook raises a library-derived error
+        self.input_faults = set()      # input FIELD names whose @vtgate on_post_input_coercion hook raises for non-null values
         self.arg_faults = set()        # (field name, argument name): the @vtgate argument hook raises (C08)
         self.shared_exc = None         # ONE exception instance raised by every "raise_shared" fault (known finding F11)
         self.label = None              # bundle label (C17): closures registered for another schema name must not run
